@@ -4,7 +4,7 @@ import numpy as np
 from .oracles import graph as G
 
 FAMILIES = ('er_sparse', 'er_mid', 'er_dense', 'ring', 'ring_chords', 'clique_path', 'tree_chords',
-            'two_cliques', 'near_complete', 'isolated', 'hub', 'bipartite')
+            'two_cliques', 'near_complete', 'isolated', 'hub', 'bipartite', 'few_edges')
 BRIDGE_RICH = ('ring', 'ring_chords', 'clique_path', 'tree_chords', 'two_cliques', 'er_sparse', 'hub')
 
 
@@ -54,6 +54,10 @@ def _und_support(rnd, n, family):
             for b in range(h, n):
                 add(a, b)
         add(h - 1, h)
+    elif family == 'few_edges':
+        # a handful of scattered connections (mean degree below 1/2): every rewiring attempt is the last permitted one
+        for _ in range(rnd.randint(2, 4)):
+            add(rnd.randrange(n), rnd.randrange(n))
     elif family == 'hub':
         # one hub joined to everybody plus a few leaf-leaf edges: almost every pair of edges shares the hub
         for a in range(1, n):
